@@ -262,8 +262,9 @@ StepMoveOK(old, new, inflight) ==
   \/ old = new
   \/ new = "PENDING"
   \/ old = "PENDING" /\ new \in {"RUNNING", "CHECKING"}
-  \/ old = "RUNNING" /\ new \in {"SUCCEEDED", "FAILED"}
-  \/ old = "CHECKING" /\ new \in {"SUCCEEDED", "FAILED"}
+  \/ old = "RUNNING" /\ new = "FAILED"            \* completion, or the reset of an interrupted step
+  \/ old = "RUNNING" /\ new = "SUCCEEDED" /\ inflight  \* only the job that was dispatched completes it
+  \/ old = "CHECKING" /\ new \in {"SUCCEEDED", "FAILED"} /\ inflight
   \/ old = "PENDING" /\ new \in {"SUCCEEDED", "FAILED"} /\ inflight   \* CompletionAfterRedeclare
 
 HashTableMoves ==
